@@ -96,6 +96,7 @@ class Tracer:
         self.rowhex = rowhex
         self.model = model
         self.scenario = scenario
+        self._depth_plan = sorted((scenario or {}).get("irr", {}).get("depth_plan", []) if (scenario or {}).get("irr") else [])
         self.events = []
         self.cfg = None
         self.stages = stages
@@ -336,6 +337,13 @@ class Tracer:
         except BaseException:  # noqa  (a window the fresh model rejects: no oracle for this season)
             return None
 
+    def _depth_on(self, tsc):
+        d = float(((self.scenario.get("irr") or {}).get("kw") or {}).get("depth", 0.0))
+        for frm, dep in self._depth_plan:
+            if tsc >= int(frm):
+                d = float(dep)
+        return d
+
     def param_hash(self):
         m = self.model
         ps = m._param_struct
@@ -346,7 +354,8 @@ class Tracer:
         soil = ps.Soil
         h["soil"] = digest({k: v for k, v in vars(soil).items() if k not in ("profile", "Profile", "Hydrology")})
         h["soildf"] = digest(soil.profile)
-        h["irr"] = obj_digest(ps.IrrMngt)
+        # (with a depth plan the caller sets IrrMngt.depth between calls - the documented use of strategy 5 -: that field is the caller's)
+        h["irr"] = obj_digest(ps.IrrMngt, skip=("depth",) if self._depth_plan else ())
         h["fallowirr"] = obj_digest(ps.FallowIrrMngt)
         h["field"] = obj_digest(ps.FieldMngt)
         h["fallow"] = obj_digest(ps.FallowFieldMngt)
@@ -482,6 +491,7 @@ class Tracer:
                 built["crop"][k] = c0[k]
         cfg["user"] = user
         cfg["built"] = built
+        cfg["depthPlan"] = [{"from": int(a), "depth": to_num(float(b))} for a, b in self._depth_plan]
         # user's schedule (by date) for the by-date clause of C13
         sch = []
         um = m.irrigation_management
@@ -527,6 +537,9 @@ class Tracer:
         if cs.model_is_finished:
             return False
         tsc = int(cs.time_step_counter)
+        if self._depth_plan:
+            # constant-depth strategy with the depth specified from outside before each call ("usually specified outside of model")
+            m._param_struct.IrrMngt.depth = float(self._depth_on(tsc))
         wrow = m._weather[tsc]
         pre = self._clock()
         ev = {"e": "DayBegin", "tsc": tsc, "date": ordinal(cs.step_start_time), "season": int(cs.season_counter),
